@@ -469,3 +469,5 @@ def check(run, prog):
     run.ob("R-14.4", "context.py::PreProcessors::macros-writers", bool(okm),
            "preproc.macros is modified outside check_define: " + ", ".join(f.key for f, _ in wr["macros"]), None)
     rule_nesting_state(run, prog, fn)
+    from .c14_macro_removal import rule_macro_removal
+    rule_macro_removal(run, prog)            # R-14.6
